@@ -88,3 +88,13 @@ Definition k_sc_enum (s : shape) (ms : list Z) (i raw : Z) : list Z :=
 (* sig = Signal(Offset(w, k)): ctx.set(sig, obj) -> raw value; ctx.get(sig) *)
 Definition k_sc_offset (w k obj : Z) : list Z :=
   let st := TbCast.tb_set_offset w k obj in [st; TbCast.tb_get_offset k st].
+
+(* ctx.set(target, v) on a target that may contain nodes that are not assignable: per stimulus [0; 2] when the write reaches
+   such a node (ValueError), else 1 :: the target's signals after the write *)
+Definition k_tbset_err (inits : list Z) (target : expr) (v : Z) (stims : list (list Z)) : list Z :=
+  if wf_expr target then
+    1 :: flat_map (fun vs =>
+      let curr := fun i => if Nat.ltb i (length inits) then init_env inits i else env_of vs i in
+      if TbCast.tb_set_err curr target then [0; 2]
+      else 1 :: read_sigs (length inits) (tb_set curr target v curr)) stims
+  else [0; build_err target].
